@@ -37,3 +37,24 @@ func (c *ClusterNode) VerifDropRPCClients() {
 		delete(c.rpcClients, dest)
 	}
 }
+
+// VerifCloseAllShards unloads every loaded shard (closing its database file),
+// the way a process exit would: in-process harnesses that "restart" a node
+// need the file locks released.
+func (sm *ShardManager) VerifCloseAllShards() {
+	sm.shardLock.Lock()
+	defer sm.shardLock.Unlock()
+	for dir, ls := range sm.shardStore {
+		ls.mu.Lock()
+		if ls.shard != nil {
+			select {
+			case ls.doneCh <- true:
+			default:
+			}
+			ls.shard.Close()
+			ls.shard = nil
+		}
+		ls.mu.Unlock()
+		delete(sm.shardStore, dir)
+	}
+}
